@@ -189,6 +189,7 @@ struct SimStats {
   long sim_errors = 0;
   long stderr_bytes = 0;
   long short_reads = 0;
+  long sabotage_applied = 0;  // canaries: how often the simulated mremap actually handed back a stale address
   long transient_short_writes = 0;
 };
 SimStats &stats();
